@@ -320,6 +320,9 @@ func (st *AATStateTable) GetClass(glyph GID) uint16 {
 	if glyph == 0xFFFF { // deleted glyph
 		return 2 // class deleted
 	}
+	if glyph > 0xFFFF { // not a glyph of the font (cmap 12/13): do not truncate
+		return 1 // class out of bounds
+	}
 	if st.class == nil { // NULL offset to the class table
 		return 1 // class out of bounds
 	}
